@@ -82,11 +82,20 @@ fn extract_bracket_expr(pattern: &str) -> Option<(String, &str)> {
                 let mut lookahead = chars.clone();
                 if let Some(delim) = lookahead.next() {
                     if matches!(delim, '.' | '=' | ':') {
-                        expr.push(delim);
                         let rest = lookahead.as_str();
                         let end = rest.find([delim, ']'])? + 2;
                         // An unterminated class name makes the whole bracket invalid.
-                        expr.push_str(rest.get(..end)?);
+                        let body = rest.get(..end)?;
+                        if delim == ':' && body == "punct:]" {
+                            // The engine's [:punct:] is the Unicode punctuation category;
+                            // POSIX means the 32 ASCII characters that are neither
+                            // alphanumeric nor blank, symbols like $ + < = > ^ ` | ~ included.
+                            expr.pop();
+                            expr.push_str("!-/:-@[-`{-~");
+                        } else {
+                            expr.push(delim);
+                            expr.push_str(body);
+                        }
                         chars = rest[end..].chars();
                     }
                 }
